@@ -1031,7 +1031,16 @@ func (e *enc) instr(b *ssa.BasicBlock, in ssa.Instruction) {
 		for _, r := range x.Results {
 			vals = append(vals, e.value(r))
 		}
-		fr.returns = append(fr.returns, retInfo{at: fr.cur, vals: vals, mem: copyMem(e.mem)})
+		ri := retInfo{at: fr.cur, vals: vals, mem: copyMem(e.mem), pos: x.Pos()}
+		for i, r := range x.Results {
+			if l, ok := fr.loc[r]; ok {
+				if ri.locs == nil {
+					ri.locs = map[int]*Loc{}
+				}
+				ri.locs[i] = l
+			}
+		}
+		fr.returns = append(fr.returns, ri)
 		for i, r := range x.Results {
 			if l, ok := fr.loc[r]; ok {
 				if fr.retLocs == nil {
